@@ -115,6 +115,8 @@ type Channel struct {
 	Q              *util.Queue
 	Errs           chan error
 	readLoopExited atomic.Bool
+	// readErr is the error of the most recent transport read (nil once a read succeeds again)
+	readErr atomic.Pointer[error]
 
 	ChannelLog io.Writer
 }
